@@ -1,4 +1,5 @@
 import PlinioVerif.Model.Proto
+import PlinioVerif.Model.PIT.Parse
 import PlinioVerif.Lemmas.PIT.NetSem
 import PlinioVerif.Lemmas.PIT.OpenSeed
 import Mathlib.Algebra.Group.Int.Defs
@@ -23,27 +24,6 @@ structure NodeW where
   mu : Option (List Int) := none
   gamma : List Int := []
   beta : List Int := []
-
-def parseNats (s : String) : List Nat := (s.splitOn ",").filterMap (·.trimAscii.toString.toNat?)
-
-def attr (k bias osz : String) : Option LAttr := do
-  pure { k := ← k.toNat?, bias := ← parseBool? bias, osz := ← osz.toNat? }
-
-def parseOp (toks : List String) : Option Op :=
-  match toks with
-  | ["input", c] => do pure (.input (← c.toNat?))
-  | ["conv", s, c, k, b, o] => do pure (.conv (← s.toNat?) (← c.toNat?) (← attr k b o))
-  | ["dw", s, k, b, o] => do pure (.dw (← s.toNat?) (← attr k b o))
-  | ["lin", s, c, b] => do pure (.lin (← s.toNat?) (← c.toNat?) (← attr "1" b "1"))
-  | ["fixed", s, c, k, b, o, l] => do pure (.fixed (← s.toNat?) (← c.toNat?) (← attr k b o) (← parseBool? l))
-  | ["fixeddw", s, k, b, o] => do pure (.fixedDw (← s.toNat?) (← attr k b o))
-  | ["chan", s] => do pure (.chan (← s.toNat?))
-  | ["add", a, b] => do pure (.add (← a.toNat?) (← b.toNat?))
-  | ["cat", ss] => some (.cat (parseNats ss))
-  | ["tcat", ss] => some (.tcat (parseNats ss))
-  | ["flat", s, m] => do pure (.flat (← s.toNat?) (← m.toNat?))
-  | ["output", s] => do pure (.output (← s.toNat?))
-  | _ => none
 
 def optList (s : String) : Option (Option (List Int)) :=
   if s = "-" then some none else (parseList? parseInt? s).map some
